@@ -434,6 +434,7 @@ type Event struct {
 	R     int64  `json:"r"`     // render id current on that goroutine (0 = none)
 	W     int64  `json:"w"`     // id of the FaultWriter the buffer points at (runtime pool)
 	Dirty bool   `json:"dirty"` // acquire: buffered bytes or sticky error after Reset; get/put: non-empty bytes.Buffer
+	Own   bool   `json:"own"`   // existing: the buffer is the caller's own object, not one of the pool
 	Err   string `json:"err"`   // flush: error class; end: error class
 }
 
@@ -447,9 +448,13 @@ type Recorder struct {
 	Perturb func() // called at every hook before the event is taken (C14: runtime.Gosched)
 	On      bool
 	FixedG  int64 // != 0: single-goroutine harness, skip the goroutine-id lookup
+	own     sync.Map
 }
 
 func NewRecorder() *Recorder { return &Recorder{bufIDs: map[any]int{}, On: true} }
+
+// Own registers a *runtime.Buffer that the harness made itself (a caller's own buffer, never pooled).
+func (r *Recorder) Own(b any) { r.own.Store(b, true) }
 
 // GoID returns the id of the calling goroutine (harness-side only; parsed from the stack header).
 func GoID() int64 {
@@ -526,6 +531,9 @@ func (r *Recorder) Install() {
 	templruntime.VerifPoolHook = func(ev string, b *templruntime.Buffer, err error) {
 		atomic.AddInt64(&hooksFired, 1)
 		e := Event{Ev: ev, Pool: "runtime", W: WriterID(b.Underlying)}
+		if _, ok := r.own.Load(b); ok {
+			e.Own = true
+		}
 		switch ev {
 		case "acquire":
 			n, sticky := templruntime.VerifBufferState(b)
